@@ -121,8 +121,25 @@ fn decrypt_inverts_encrypt() {
     kani::cover!(c == p, "zero stream byte reachable");
 }
 
+// ---------------------------------------------------------------------------------------
+// Stream wrappers (ZipCryptoReader::validate, ZipCryptoReaderValid::read, ZipCryptoWriter).
+//
+// A wrapper harness on the unmodified crate has to establish that two copies of a chain of
+// byte steps (the crate's loop and the reference) agree; each step holds two 256-way table
+// look-ups and two multiplications and CBMC's SAT back end does not share the two copies, so
+// the cost grows with the chain length (measured: 2 steps 15-30 s, 4 steps 40-70 s, 12 steps
+// 200-400+ s; the SMT back ends abort with `map::at` on std::io::Result). Therefore:
+//   * real byte step, short chains (reader, 4 bytes): quick tier, labelled `bounded`;
+//   * real byte step, the 12-byte header (validate): thorough tier;
+//   * `*_wrapper` harnesses replace decrypt_byte / encrypt_byte by a cheap recording step
+//     (kani::stub, listed under `trusted` by the runner) and prove the wrapper logic for that
+//     step: which bytes are fed to the step, in which order, how often, and where the results
+//     go. The wrappers use the keys only through these two methods (ZipCryptoKeys is not
+//     otherwise touched in validate/read/finish), so the statement transfers to the real step,
+//     which is proved against the appnote by the complete harnesses above.
+
 // in-harness byte source: hands out `avail` bytes of `data` starting at `pos`, at most
-// `max_per_call` per call; `fail` makes every call return an error
+// `max_per_call` (>= 1) per call; `fail` makes every call return an error
 struct Src<const N: usize> {
     data: [u8; N],
     pos: usize,
@@ -147,9 +164,31 @@ impl<const N: usize> Read for Src<N> {
     }
 }
 
-// @harness initial_keys complete props=C15 doc="ZipCryptoKeys::new() is (0x12345678,0x23456789,0x34567890) = APPNOTE 6.1.5 (305419896,591751049,878082192); derive(&[]) == new(); derive(&[a]) and derive(&[a,b]) are the left fold of update over the password for all a,b; ZipCryptoReader::new stores derive(password)"
+// in-harness byte source for a 4-byte buffer: fills exactly the first `n` bytes, returns Ok(n)
+struct Short4 {
+    data: [u8; 4],
+    n: usize,
+    fail: bool,
+}
+
+impl Read for Short4 {
+    fn read(&mut self, buf: &mut [u8]) -> std::io::Result<usize> {
+        if self.fail {
+            return Err(std::io::Error::from(std::io::ErrorKind::Other));
+        }
+        let n = self.n;
+        if n > 0 { buf[0] = self.data[0]; }
+        if n > 1 { buf[1] = self.data[1]; }
+        if n > 2 { buf[2] = self.data[2]; }
+        if n > 3 { buf[3] = self.data[3]; }
+        Ok(n)
+    }
+}
+
+// @harness initial_keys complete props=C15 doc="ZipCryptoKeys::new() is (0x12345678,0x23456789,0x34567890) = APPNOTE 6.1.5 (305419896,591751049,878082192); derive(&[]) == new(); derive(&[a]) and derive(&[a,b]) are the left fold of update over the password for all a,b; ZipCryptoReader::new stores derive(password) and does not read"
 #[kani::proof]
 #[kani::unwind(4)]
+#[kani::solver(z3)] // 2 s; the SAT back ends need 35-55 s for the two-step chain
 fn initial_keys() {
     let init = RefKeys { k0: 305419896, k1: 591751049, k2: 878082192 };
     assert!(init.k0 == 0x12345678 && init.k1 == 0x23456789 && init.k2 == 0x34567890);
@@ -168,7 +207,7 @@ fn initial_keys() {
     assert!(r.file.calls == 0);
 }
 
-// @harness reader_short_read_independent bounded bound="buffer of 4 bytes, inner reader returns n in 0..=4 (or an error)" props=C15,C09,C11 doc="ZipCryptoReaderValid::read over an inner reader that fills only the first n <= 4 bytes of a 4-byte buffer (rest of the buffer = arbitrary stale bytes): returns Ok(n), out[..n] are the decryptions of exactly the n delivered bytes in order, and the key state afterwards is the state after those n byte steps -- not after the whole buffer; an inner Err is returned as Err with the keys untouched; the inner reader is called exactly once"
+// @harness reader_short_read_independent bounded bound="buffer of 4 bytes, inner reader returns n in 0..=4" props=C15,C09 doc="real byte step: ZipCryptoReaderValid::read over an inner reader that fills only the first n <= 4 bytes of a 4-byte buffer (rest of the buffer = arbitrary stale bytes), all keys, all bytes: returns Ok(n), out[..n] are the decryptions of exactly the n delivered bytes in order, and the key state afterwards is the state after those n byte steps -- not after the whole buffer"
 #[kani::proof]
 #[kani::unwind(6)]
 fn reader_short_read_independent() {
@@ -176,45 +215,69 @@ fn reader_short_read_independent() {
     let data: [u8; 4] = kani::any();
     let n: usize = kani::any();
     kani::assume(n <= 4);
-    let fail: bool = kani::any();
-    let src = Src::<4> { data, pos: 0, avail: n, max_per_call: 4, fail, calls: 0 };
+    let src = Short4 { data, n, fail: false };
     let mut rd = ZipCryptoReaderValid { reader: ZipCryptoReader { file: src, keys: mk(k) } };
     let stale: [u8; 4] = kani::any();
     let mut buf = stale;
     let r = rd.read(&mut buf);
-    assert!(rd.reader.file.calls == 1);
-    if fail {
-        assert!(r.is_err());
-        assert!(view(&rd.reader.keys) == k);
-    } else {
-        // reference: decrypt exactly the n delivered bytes, one at a time
-        let mut want_keys = mk(k);
-        let mut want = [0u8; 4];
-        if n > 0 { want[0] = want_keys.decrypt_byte(data[0]); }
-        if n > 1 { want[1] = want_keys.decrypt_byte(data[1]); }
-        if n > 2 { want[2] = want_keys.decrypt_byte(data[2]); }
-        if n > 3 { want[3] = want_keys.decrypt_byte(data[3]); }
-        assert!(matches!(r, Ok(m) if m == n));
-        assert!(view(&rd.reader.keys) == view(&want_keys));
-        if n > 0 { assert!(buf[0] == want[0]); }
-        if n > 1 { assert!(buf[1] == want[1]); }
-        if n > 2 { assert!(buf[2] == want[2]); }
-        if n > 3 { assert!(buf[3] == want[3]); }
-    }
-    kani::cover!(!fail && n == 0, "empty read");
-    kani::cover!(!fail && n == 2 && stale[2] != 0 && stale[3] != 0, "short read with stale tail");
-    kani::cover!(!fail && n == 4, "full read");
-    kani::cover!(fail, "inner error");
+    // reference: decrypt exactly the n delivered bytes, one at a time
+    let mut want_keys = mk(k);
+    let mut want = [0u8; 4];
+    if n > 0 { want[0] = want_keys.decrypt_byte(data[0]); }
+    if n > 1 { want[1] = want_keys.decrypt_byte(data[1]); }
+    if n > 2 { want[2] = want_keys.decrypt_byte(data[2]); }
+    if n > 3 { want[3] = want_keys.decrypt_byte(data[3]); }
+    assert!(matches!(r, Ok(m) if m == n));
+    assert!(view(&rd.reader.keys) == view(&want_keys));
+    if n > 0 { assert!(buf[0] == want[0]); }
+    if n > 1 { assert!(buf[1] == want[1]); }
+    if n > 2 { assert!(buf[2] == want[2]); }
+    if n > 3 { assert!(buf[3] == want[3]); }
+    kani::cover!(n == 0, "empty read");
+    kani::cover!(n == 2 && stale[2] != 0 && stale[3] != 0, "short read with stale tail");
+    kani::cover!(n == 4, "full read");
 }
 
-// @harness validate_check_byte complete props=C15,C05,C11 doc="ZipCryptoReader::validate, for all keys, all 12 header bytes, all crc/time words, both validator kinds, over an inner reader holding avail in 0..=12 bytes delivered in one call: Err when fewer than 12 bytes are available; otherwise Ok(Some) exactly when the 12th decrypted header byte equals crc>>24 (PkzipCrc32) or time>>8 (InfoZipMsdosTime), else Ok(None); on acceptance the keys have advanced over exactly the 12 header bytes and exactly 12 bytes were consumed"
+// @harness reader_error_propagates bounded bound="buffer of 4 bytes" props=C11,C15 doc="an Err from the inner reader is returned as Err by ZipCryptoReaderValid::read and the keys are untouched, for all keys"
+#[kani::proof]
+#[kani::unwind(6)]
+fn reader_error_propagates() {
+    let k = any_keys();
+    let src = Short4 { data: kani::any(), n: 0, fail: true };
+    let mut rd = ZipCryptoReaderValid { reader: ZipCryptoReader { file: src, keys: mk(k) } };
+    let mut buf: [u8; 4] = kani::any();
+    let r = rd.read(&mut buf);
+    assert!(r.is_err());
+    assert!(view(&rd.reader.keys) == k);
+    let inner = rd.into_inner();
+    assert!(inner.fail);
+}
+
+// @harness validate_truncated_header complete props=C05,C11,C15 doc="ZipCryptoReader::validate over an inner reader holding fewer than 12 bytes (0..=11, any content, any keys, either validator) returns Err, never Ok and never panics"
+#[kani::proof]
+#[kani::unwind(14)]
+fn validate_truncated_header() {
+    let k = any_keys();
+    let data: [u8; 12] = kani::any();
+    let avail: usize = kani::any();
+    kani::assume(avail < 12);
+    let src = Src::<12> { data, pos: 0, avail, max_per_call: 12, fail: false, calls: 0 };
+    let rd = ZipCryptoReader { file: src, keys: mk(k) };
+    let validator = if kani::any() { ZipCryptoValidator::InfoZipMsdosTime(kani::any()) } else { ZipCryptoValidator::PkzipCrc32(kani::any()) };
+    let r = rd.validate(validator);
+    assert!(r.is_err());
+    kani::cover!(avail == 11, "one byte short");
+    kani::cover!(avail == 0, "empty");
+}
+
+// @harness validate_check_byte complete tier=thorough props=C15 doc="real byte step: ZipCryptoReader::validate, for all keys, all 12 header bytes, all crc/time words, both validator kinds, inner reader delivering the header in one call: Ok(Some) exactly when the 12th decrypted header byte equals crc>>24 (PkzipCrc32) or time>>8 (InfoZipMsdosTime), else Ok(None); on acceptance the keys have advanced over exactly the 12 header bytes and exactly 12 bytes were consumed"
 #[kani::proof]
 #[kani::unwind(14)]
 fn validate_check_byte() {
     let k = any_keys();
     let data: [u8; 12] = kani::any();
     let avail: usize = kani::any();
-    kani::assume(avail <= 12);
+    kani::assume(avail == 12);
     let crc: u32 = kani::any();
     let time: u16 = kani::any();
     let use_time: bool = kani::any();
@@ -222,43 +285,121 @@ fn validate_check_byte() {
     let rd = ZipCryptoReader { file: src, keys: mk(k) };
     let validator = if use_time { ZipCryptoValidator::InfoZipMsdosTime(time) } else { ZipCryptoValidator::PkzipCrc32(crc) };
     let r = rd.validate(validator);
-    if avail < 12 {
-        assert!(r.is_err());
-    } else {
-        // reference: the 12 header bytes decrypted one at a time from the starting keys
-        let mut want_keys = mk(k);
-        let mut last = 0u8;
-        for i in 0..12 {
-            last = want_keys.decrypt_byte(data[i]);
-        }
-        let check: u8 = if use_time { (time >> 8) as u8 } else { (crc >> 24) as u8 };
-        match r {
-            Err(_) => assert!(false),
-            Ok(None) => assert!(last != check),
-            Ok(Some(v)) => {
-                assert!(last == check);
-                assert!(view(&v.reader.keys) == view(&want_keys));
-                assert!(v.reader.file.pos == 12);
-            }
-        }
-        kani::cover!(last == check && use_time, "accepted by time check byte");
-        kani::cover!(last == check && !use_time, "accepted by crc check byte");
-        kani::cover!(last != check, "rejected");
+    // reference: the 12 header bytes decrypted one at a time from the starting keys
+    let mut want_keys = mk(k);
+    let mut last = 0u8;
+    for i in 0..12 {
+        last = want_keys.decrypt_byte(data[i]);
     }
-    kani::cover!(avail == 11, "truncated header");
+    let check: u8 = if use_time { (time >> 8) as u8 } else { (crc >> 24) as u8 };
+    match r {
+        Err(_) => assert!(false),
+        Ok(None) => assert!(last != check),
+        Ok(Some(v)) => {
+            assert!(last == check);
+            assert!(view(&v.reader.keys) == view(&want_keys));
+            assert!(v.reader.file.pos == 12);
+        }
+    }
+    kani::cover!(last == check && use_time, "accepted by time check byte");
+    kani::cover!(last == check && !use_time, "accepted by crc check byte");
+    kani::cover!(last != check, "rejected");
 }
 
-// in-harness sink: appends to a fixed array
+// ---- recording byte step used by the *_wrapper harnesses -------------------------------
+// The three key words act as a 96-bit shift register of the bytes fed to the step (so the
+// final key state determines the last 12 inputs and their order, and for fewer steps the
+// remaining bits of the arbitrary initial state pin the number of steps); the returned byte
+// mixes the input with the state so that a result stored in the wrong place or computed from
+// the wrong state is visible.
+fn rec_step(k: &mut ZipCryptoKeys, input: u8) -> u8 {
+    let out = input.wrapping_add(k.key_0.0 as u8).rotate_left(3) ^ ((k.key_2.0 >> 24) as u8);
+    k.key_2 = Wrapping((k.key_2.0 << 8) | (k.key_1.0 >> 24));
+    k.key_1 = Wrapping((k.key_1.0 << 8) | (k.key_0.0 >> 24));
+    k.key_0 = Wrapping((k.key_0.0 << 8) | input as u32);
+    out
+}
+
+// @harness validate_check_byte_wrapper complete props=C15,C09 doc="recording byte step (kani::stub of decrypt_byte): ZipCryptoReader::validate over an inner reader that delivers the 12 header bytes in chunks of at most c bytes per call (c symbolic in 1..=12): feeds exactly the 12 header bytes, in order, once each, to the byte step; accepts (Ok(Some)) exactly when the 12th result equals crc>>24 (PkzipCrc32) or time>>8 (InfoZipMsdosTime), else Ok(None); consumes exactly 12 bytes"
+#[kani::proof]
+#[kani::unwind(14)]
+#[kani::stub(ZipCryptoKeys::decrypt_byte, rec_step)]
+fn validate_check_byte_wrapper() {
+    let k = any_keys();
+    let data: [u8; 16] = kani::any();
+    let chunk: usize = kani::any();
+    kani::assume(1 <= chunk && chunk <= 12);
+    let crc: u32 = kani::any();
+    let time: u16 = kani::any();
+    let use_time: bool = kani::any();
+    let src = Src::<16> { data, pos: 0, avail: 16, max_per_call: chunk, fail: false, calls: 0 };
+    let rd = ZipCryptoReader { file: src, keys: mk(k) };
+    let validator = if use_time { ZipCryptoValidator::InfoZipMsdosTime(time) } else { ZipCryptoValidator::PkzipCrc32(crc) };
+    let r = rd.validate(validator);
+    let mut want_keys = mk(k);
+    let mut last = 0u8;
+    for i in 0..12 {
+        last = rec_step(&mut want_keys, data[i]);
+    }
+    let check: u8 = if use_time { (time >> 8) as u8 } else { (crc >> 24) as u8 };
+    match r {
+        Err(_) => assert!(false),
+        Ok(None) => assert!(last != check),
+        Ok(Some(v)) => {
+            assert!(last == check);
+            assert!(view(&v.reader.keys) == view(&want_keys));
+            // the register now holds the 12 header bytes, oldest in the top byte of key_2
+            assert!(v.reader.keys.key_2.0 >> 24 == data[0] as u32 && v.reader.keys.key_0.0 & 0xff == data[11] as u32);
+            assert!(v.reader.file.pos == 12);
+        }
+    }
+    kani::cover!(last == check && use_time && chunk == 5, "accepted by time check byte, 5-byte chunks");
+    kani::cover!(last == check && !use_time && chunk == 12, "accepted by crc check byte, one chunk");
+    kani::cover!(last != check && chunk == 1, "rejected, single-byte reads");
+}
+
+// @harness reader_short_read_wrapper bounded bound="buffer of 8 bytes, inner reader returns n in 0..=8" props=C15,C09 doc="recording byte step (kani::stub of decrypt_byte): ZipCryptoReaderValid::read feeds exactly the n delivered bytes, in order, to the byte step, stores the i-th result in out[i], leaves out[n..] alone, returns Ok(n)"
+#[kani::proof]
+#[kani::unwind(10)]
+#[kani::stub(ZipCryptoKeys::decrypt_byte, rec_step)]
+fn reader_short_read_wrapper() {
+    let k = any_keys();
+    let data: [u8; 8] = kani::any();
+    let n: usize = kani::any();
+    kani::assume(n <= 8);
+    let src = Src::<8> { data, pos: 0, avail: n, max_per_call: 8, fail: false, calls: 0 };
+    let mut rd = ZipCryptoReaderValid { reader: ZipCryptoReader { file: src, keys: mk(k) } };
+    let stale: [u8; 8] = kani::any();
+    let mut buf = stale;
+    let r = rd.read(&mut buf);
+    assert!(matches!(r, Ok(m) if m == n));
+    assert!(rd.reader.file.calls == 1);
+    let mut want_keys = mk(k);
+    for i in 0..8 {
+        if i < n {
+            assert!(buf[i] == rec_step(&mut want_keys, data[i]));
+        } else {
+            assert!(buf[i] == stale[i]);
+        }
+    }
+    assert!(view(&rd.reader.keys) == view(&want_keys));
+    kani::cover!(n == 3, "short read");
+    kani::cover!(n == 8, "full read");
+}
+
+// in-harness sink: appends to a fixed array, accepts at most `max_per_call` (>= 1) bytes per call
 struct Sink {
     out: [u8; 16],
     len: usize,
+    max_per_call: usize,
     flushed: bool,
 }
 
 impl Write for Sink {
     fn write(&mut self, buf: &[u8]) -> std::io::Result<usize> {
-        let n = buf.len();
-        self.out[self.len..self.len + n].copy_from_slice(buf);
+        let mut n = buf.len();
+        if n > self.max_per_call { n = self.max_per_call; }
+        self.out[self.len..self.len + n].copy_from_slice(&buf[..n]);
         self.len += n;
         self.flushed = false;
         Ok(n)
@@ -269,36 +410,32 @@ impl Write for Sink {
     }
 }
 
-// @harness writer_finish_encrypts_buffer bounded bound="buffer of 12 header bytes + up to 2 data bytes" props=C15,C02 doc="ZipCryptoWriter::finish(crc) over an accepting sink: the sink receives exactly encrypt_byte (from the starting keys, in order) of the buffer with buffer[11] replaced by crc>>24, nothing else, and is flushed; write() only buffers"
+// @harness writer_finish_wrapper bounded bound="buffer of 12 header bytes + 2 data bytes" props=C15,C02 doc="recording byte step (kani::stub of encrypt_byte): ZipCryptoWriter::write only buffers; finish(crc) feeds the 14 buffered bytes, with byte 11 replaced by crc>>24, in order, once each, to the byte step and the sink (accepting either everything or at most 5 bytes per call) receives exactly the 14 results in order and is flushed"
 #[kani::proof]
 #[kani::unwind(16)]
-fn writer_finish_encrypts_buffer() {
+#[kani::stub(ZipCryptoKeys::encrypt_byte, rec_step)]
+fn writer_finish_wrapper() {
     let k = any_keys();
     let content: [u8; 14] = kani::any();
-    let extra: usize = kani::any();
-    kani::assume(extra <= 2);
     let crc: u32 = kani::any();
+    let chunk: usize = if kani::any() { 5 } else { 16 };
+    let mut header = Vec::with_capacity(14);
+    header.extend_from_slice(&content[..12]);
     let mut w = ZipCryptoWriter {
-        writer: Sink { out: [0; 16], len: 0, flushed: false },
-        buffer: content[..12].to_vec(),
+        writer: Sink { out: [0; 16], len: 0, max_per_call: chunk, flushed: false },
+        buffer: header,
         keys: mk(k),
     };
-    // data bytes go through the Write impl, which must only buffer them
-    let wr = w.write(&content[12..12 + extra]);
-    assert!(matches!(wr, Ok(m) if m == extra));
-    assert!(w.writer.len == 0);
-    assert!(w.buffer.len() == 12 + extra);
-    let r = w.finish(crc);
-    let sink = match r { Ok(s) => s, Err(_) => { assert!(false); return; } };
-    assert!(sink.len == 12 + extra);
-    assert!(sink.flushed);
+    let wr = w.write(&content[12..14]);
+    assert!(matches!(wr, Ok(2)));
+    assert!(w.writer.len == 0 && w.buffer.len() == 14);
+    let sink = match w.finish(crc) { Ok(s) => s, Err(_) => { assert!(false); return; } };
+    assert!(sink.len == 14 && sink.flushed);
     let mut ek = mk(k);
     for i in 0..14 {
-        if i < 12 + extra {
-            let p = if i == 11 { (crc >> 24) as u8 } else { content[i] };
-            assert!(sink.out[i] == ek.encrypt_byte(p));
-        }
+        let p = if i == 11 { (crc >> 24) as u8 } else { content[i] };
+        assert!(sink.out[i] == rec_step(&mut ek, p));
     }
-    kani::cover!(extra == 0, "header only");
-    kani::cover!(extra == 2, "two data bytes");
+    kani::cover!(chunk == 5, "sink accepts five bytes at a time");
+    kani::cover!(chunk == 16, "sink accepts everything");
 }
